@@ -259,12 +259,37 @@ impl Property for C13 {
         }
     }
     fn required_labels(&self, _tier: Tier) -> Vec<&'static str> {
-        vec!["nontrivial", "members>30", "empty-set", "ancestor-and-descendant-members", "replacement-collides-with-member", "modifier-member", "modifier-root-member", "replaced-but-not-obsolete-member", "sequence:mutation-after-aggregate-read"]
+        vec!["nontrivial", "members>30", "empty-set", "ancestor-and-descendant-members", "replacement-collides-with-member", "modifier-member", "modifier-root-member", "replaced-but-not-obsolete-member", "sequence:mutation-after-aggregate-read", "members>255"]
     }
     fn run_generated(&self, tier: Tier, seed: u64, n: u64, stats: &mut Stats) -> Option<(Value, Failure)> {
         run_typed(strategy(tier), seed, n, stats, check)
     }
     fn replay(&self, case: &Value, stats: &mut Stats) -> Result<CheckResult, String> {
+        if let Some(b) = case.get("big") {
+            // (terms, mult, records per kind, members): sets of more than 255 members on a `bulk_facts`
+            // ontology (obsolete terms, replacements, a modifier branch), with an operation sequence
+            let v: (u32, u32, u32, u32) = serde_json::from_value(b.clone()).map_err(|e| e.to_string())?;
+            stats.cases += 1;
+            let facts = super::common::bulk_facts(v.0, v.1, v.2);
+            let ids: Vec<u32> = facts.terms.iter().map(|t| t.id).collect();
+            let members: Vec<u32> = (0..v.3 as usize).map(|i| ids[(i * 5 + i / 7) % ids.len()]).collect();
+            let ops = vec![(0u8, 0u16), (3, 0), (0, 0), (2, 0), (0, 0), (4, 77), (1, 0), (0, 0), (5, 0), (0, 0)];
+            let c = Case { facts, members, path: PathSel::Bin(3), ops };
+            let r = check(&c, stats);
+            if r.is_ok() {
+                stats.label("members>255");
+            }
+            return Ok(r);
+        }
         replay_typed::<Case, _>(case, stats, check)
+    }
+    fn isolated_plans(&self, tier: Tier, seed: u64) -> Vec<Value> {
+        let mult = [104_729u32, 7919][(seed % 2) as usize];
+        let mut out = vec![json!({"big": (1200u32, mult, 30u32, 300u32)})];
+        if tier == Tier::Thorough {
+            out.push(json!({"big": (70_000u32, mult, 300u32, 66_000u32)}));
+            out.push(json!({"big": (5000u32, mult, 300u32, 4100u32)}));
+        }
+        out
     }
 }
